@@ -178,6 +178,7 @@ def rust_path(p):
 
 def gen_registry(cur, ref, shared):
     lines = ["// GENERATED by tools/c20check.py from the current source tree -- do not edit, not committed.",
+             "#![allow(deprecated)]",
              "use crate::{run, url_probe, DecFn, UrlFn};",
              "use initia_proto::traits::TypeUrl;", "",
              "pub static MSGS: &[(&str, DecFn, Option<DecFn>)] = &["]
